@@ -50,6 +50,7 @@ static void sweep_shard(int sh,int n){ unsigned char w[4]; bool full=true; uint6
 		for(int b=0;b<256;b++){ w[1]=b; for(int c=0;c<256;c++){ w[2]=c;
 			if(full){ for(int d=0;d<256;d++){ w[3]=d; window(w,4); } ev+=256; }
 			else { for(int d=0;d<16;d++){ w[3]=B16[d]; window(w,4); } ev+=16; } } } }
+	{ unsigned char sw[3][4]={{0xe2,0x82,0xac,0x41},{0xed,0xa0,0x80,0x80},{0xf4,0x90,0x80,0x80}}; for(int q=0;q<3;q++){ uint32_t cp=0; int l=ref_next(sw[q],4,cp); const unsigned char *pp=sw[q]; const unsigned char *pe=sw[q]+4; uint32_t c=cppcms::utf8::next(pp,pe,false); vf::sample("{\"window_hex\":"+vf::jstr(vf::hex(std::string((char*)sw[q],4)))+",\"reference_length\":"+std::to_string(l)+",\"utf8_next\":"+(c==cppcms::utf::illegal?std::string("\"illegal\""):std::to_string(c))+"}"); } }
 	vf::eval(ev); vf::guard("windows_wellformed",g_valid_seen); vf::guard("windows_illformed",g_invalid_seen); vf::guard("html_mode_rejections",g_html_rejected);
 	// distinct: classes (lead byte, reference length)
 	for(int a=sh;a<256;a+=n){ unsigned char t[4]={(unsigned char)a,0x80,0x80,0x80}; uint32_t cp; vf::outcome("lead"+std::to_string(a)+":"+std::to_string(ref_next(t,4,cp))); unsigned char u[4]={(unsigned char)a,0xA0,0x80,0x80}; vf::outcome("leadA0"+std::to_string(a)+":"+std::to_string(ref_next(u,4,cp))); unsigned char v[4]={(unsigned char)a,0x90,0xBF,0xBF}; vf::outcome("lead90"+std::to_string(a)+":"+std::to_string(ref_next(v,4,cp))); }
@@ -103,6 +104,7 @@ static void string_case(const std::string &s){ vf::eval(); vf::announce("string 
 		if(v!=rv) bad("filter:verdict","validate_or_filter verdict differs from the reference",s);
 		else if(!v){ size_t c2; std::vector<Item> i2; if(!ref_string(out,c2,i2)) bad("filter:output-invalid","validate_or_filter output is itself not valid",s); else if(!match_filtered(items,out,repl)) bad(r?"filter:content-repl":"filter:content","validate_or_filter output is not the input with each invalid unit dropped/replaced: "+vf::hex(out),s); vf::guard("filtered"); }
 		else if(out!="PRE"){ /* valid input: output may be untouched or a copy */ if(out!=s) bad("filter:valid-changed","validate_or_filter changed valid text",s); } }
+	{ static uint64_t sc=0; if(vf::sample_tick(sc,40009)) vf::sample("{\"string_hex\":"+vf::jstr(vf::hex(s))+",\"reference_valid\":"+(rv?"true":"false")+",\"code_points\":"+std::to_string(rc)+",\"units\":"+std::to_string(items.size())+"}"); }
 	vf::outcome(std::string(rv?"v":"i")+std::to_string(rc)+":"+std::to_string(items.size())+":"+vf::hex(s.substr(0,6))); }
 static void strings_shard(int sh,int n){ bool th=vf::thorough(); std::vector<std::string> full=catalogue(false),small=catalogue(true); uint64_t idx=0;
 	std::function<void(const std::vector<std::string>&,std::string&,int,int)> rec=[&](const std::vector<std::string> &cat,std::string &cur,int d,int maxd){ if(d==maxd){ if((idx++%n)==(uint64_t)sh) string_case(cur); return; } for(size_t i=0;i<cat.size();i++){ size_t l=cur.size(); cur+=cat[i]; rec(cat,cur,d+1,maxd); cur.resize(l);} };
